@@ -18,7 +18,7 @@ YOUR TASK: make ONE realistic change to the library source under {wt}/src/porepy
 Steps:
 1. Read the relevant source and the existing tests under {wt}/tests that exercise it, to learn what the tests pin down and what they do not.
 2. Make the change (source files only; never edit tests).
-3. Write a small standalone demonstration program {wt}-out/demo.py that checks the property on a specific input/sequence: it must exit with status 0 on the ORIGINAL code and with a non-zero status (assertion failure) on the CHANGED code. Verify both (use `git stash` / `git stash pop` in the worktree to switch).
+3. Write a small standalone demonstration program {wt}-out/demo.py that checks the property on a specific input/sequence: it must exit with status 0 on the ORIGINAL code and with a non-zero status (assertion failure) on the CHANGED code. Verify both (switch with `git diff > /tmp/seed-'PID'-out/p.diff; git apply -R p.diff; ...; git apply p.diff` - NEVER use `git stash`: the stash is shared between all worktrees of the repository and other people are working in sibling worktrees).
 4. Run the existing tests that cover the changed code with the change applied and confirm they pass: `cd {wt} && PYTHONPATH={wt}/src /venv/bin/python -m pytest -q -p no:cacheprovider --no-cov -x tests/<relevant files>` (CPU is scarce: run only the relevant test files, never the whole suite; if a relevant test fails, make the change subtler).
 5. Deliver in the directory {wt}-out/ (create it): patch.diff (output of `git -C {wt} diff`), demo.py, and meta.json with the keys: "property" ("{pid}"), "summary" (what the change is), "needs_to_manifest" (what specific input / sequence / configuration is needed for the violation to show), "tests_run" (the pytest command lines you ran with the change applied and their outcome), "demo_original" and "demo_changed" (exit status of demo.py on original and changed code).
 Leave the change applied in the worktree (uncommitted). Do not commit. Your final message should summarise the change in 3-5 sentences.""")
